@@ -76,6 +76,17 @@ def f_undriven(b, rng):
     return 'removed the only driver of %s (still read)' % n.dests[0].name
 
 
+def f_undriven_reg(b, rng):
+    """a Register that is read but whose `r` net is gone (`.next` never assigned)"""
+    src, dst = b.net_connections()
+    cands = [n for n in _nets(b, 'r') if n.dests[0] in dst and dst[n.dests[0]]]
+    if not cands:
+        return None
+    n = rng.choice(cands)
+    b.logic.remove(n)
+    return 'removed the r net of register %s (still read)' % n.dests[0].name
+
+
 def f_unconnected(b, rng):
     with pyrtl.set_working_block(b, no_sanity_check=True):
         w = WireVector(rng.randint(1, 8), 'verif_floating')
@@ -235,7 +246,8 @@ def f_comb_cycle(b, rng):
     return 'combinational cycle through %s' % n.dests[0].name
 
 
-FAULTS = [('two-drivers', f_two_drivers), ('undriven', f_undriven), ('unconnected', f_unconnected),
+FAULTS = [('two-drivers', f_two_drivers), ('undriven', f_undriven), ('undriven-register', f_undriven_reg),
+          ('unconnected', f_unconnected),
           ('foreign-wire', f_foreign), ('arity', f_arity), ('bitwidth', f_width), ('op-param', f_param),
           ('input-const-dest', f_input_dest), ('output-arg', f_output_arg), ('dup-name', f_dup_name),
           ('comb-cycle', f_comb_cycle)]
@@ -342,6 +354,6 @@ def main(ctx):
         ctx.extra['tie_only_examples'] = getattr(ctx, 'tie_only', [])[:3]
     ctx.oblige('property:faults rejected, API-built designs accepted and iterated in dependency order', not ctx.violations,
                '%d good designs, %d injected faults' % (good, bad_total))
-    return conclude(ctx, level='proof', rule='API-built designs x 11 fault classes injected at a random applicable site each x '
+    return conclude(ctx, level='proof', rule='API-built designs x 12 fault classes injected at a random applicable site each x '
                     '{sanity_check, Simulation, FastSimulation, CompiledSimulation}; iteration under native order and '
                     'pseudo-random tie-break seeds; distinct = (fault class or "good", net count, op set)')
